@@ -5,7 +5,6 @@ import (
 	"fmt"
 	"math/rand"
 	"sort"
-	"strings"
 	"sync"
 	"sync/atomic"
 	"time"
@@ -293,7 +292,6 @@ func execCacheCase(c Case) {
 	}
 	ghostOK := true
 	ghostWhy := ""
-	hookRejected := map[string]bool{} // locations where the cron add hook rejected an add (D33: linear state leaves a record)
 	for _, oi := range list(c["ops"]) {
 		o := obj(oi)
 		if boolean(o["synthetic"]) {
@@ -315,16 +313,8 @@ func execCacheCase(c Case) {
 		base := canonRes(res)
 		for k := 1; k < len(results); k++ {
 			if canonRes(results[k]) != base {
-				key := "ttl_mismatch"
-				if linear && len(hookRejected) > 0 {
-					key = "ttl_mismatch_d33"
-				}
-				res[key] = fmt.Sprintf("ttl[%d]=%v: %s %v", k, ttls[k], canonRes(results[k]), results[k]["msg"])
+				res["ttl_mismatch"] = fmt.Sprintf("ttl[%d]=%v: %s %v", k, ttls[k], canonRes(results[k]), results[k]["msg"])
 			}
-		}
-		if m := str(res["msg"]); !boolean(res["ok"]) && (str(o["op"]) == "addfact" || str(o["op"]) == "addrule") &&
-			(strings.Contains(m, "isn't a map") || strings.Contains(m, "isn't a string") || strings.Contains(m, "isn't a rule")) {
-			hookRejected[str(o["loc"])] = true
 		}
 		o["res"] = res
 		o["persistent"] = true
